@@ -20,6 +20,24 @@ inductive Affected (deps : Task → List Task) (hit : Task → Bool) : Task → 
   | hit {t} : hit t = true → Affected deps hit t
   | dep {t d} : d ∈ deps t → Affected deps hit d → Affected deps hit t
 
+/-! ### the interactive shell's `invalidate(task)` (jug/subcommands/shell.py): reverse edges + work list -/
+
+/-- `reverse[d]` = the tasks that list `d` among their dependencies, as built by the first call (tasks `0 .. n-1`) -/
+def revEdges (deps : Task → List Task) (n : Nat) (d : Task) : List Task :=
+  (List.range n).filter (fun t => (deps t).contains d)
+
+/-- the loop `while queue: task = queue.pop(); if seen: continue; seen.add; invalidate; queue.extend(unseen dependents)`.
+    Returns the set of invalidated tasks, or `none` if the fuel ran out before the queue was empty. -/
+def shellLoop (rev : Task → List Task) : Nat → List Task → List Task → Option (List Task)
+  | _, [], seen => some seen
+  | 0, _ :: _, _ => none
+  | fuel + 1, q :: qs, seen =>
+      -- `queue.pop()` takes the last element
+      let t := (q :: qs).getLast (by simp)
+      let rest := (q :: qs).dropLast
+      if seen.contains t then shellLoop rev fuel rest seen
+      else shellLoop rev fuel (rest ++ (rev t).filter (fun u => !(t :: seen).contains u)) (t :: seen)
+
 /-- what `store.remove_many(hashes of the invalid tasks)` leaves -/
 def invalidateStore {V} (res : Task → Option V) (bad : Task → Bool) : Task → Option V :=
   fun t => if bad t then none else res t
